@@ -383,6 +383,13 @@ static void cmd_pb(int nt, char **t)
 		if (r == 0) pb_term_defined = 0;
 		pb_state(r, e, len, off); return;
 	}
+	if (!strcmp(op, "fmtc")) {   /* formatted output that contains a NUL byte (%c with 0): <la> pattern bytes, NUL, <lb> pattern bytes */
+		long la = L(t[2]), lb = L(t[3]); unsigned seed = (unsigned)UL(t[4]); unsigned char *a = (unsigned char *)malloc((size_t)la + 1), *b = (unsigned char *)malloc((size_t)lb + 1);
+		fill_pattern(a, la, seed, 1); a[la] = 0; fill_pattern(b, lb, seed + 1, 1); b[lb] = 0;
+		errno = 0; r = sprintbuf(PB, "%s%c%s", (char *)a, 0, (char *)b); e = errno; free(a); free(b);
+		if (r >= 0) pb_term_defined = 1;
+		pb_state(r, e, la + 1 + lb, 0); return;
+	}
 	if (!strcmp(op, "fmtd")) { errno = 0; r = sprintbuf(PB, "%d|%s|%5.2f", (int)L(t[2]), "xy", 1.5); e = errno; if (r >= 0) pb_term_defined = 1; pb_state(r, e, 0, 0); return; }
 	ob_puts(&out, "! PB op");
 }
@@ -422,8 +429,9 @@ static void cmd_new(int nt, char **t)
 /* UD <h> <uid>     set_userdata (the previous delete callback must fire now) */
 static void cmd_ud(int nt, char **t) { int h = hidx(t[1]); (void)nt; json_object_set_userdata(H[h], (void *)(intptr_t)L(t[2]), del_cb); ob_puts(&out, "= ok"); emit_dlog(); }
 static int ser_fn(struct json_object *o, struct printbuf *pb, int level, int flags) { (void)o; (void)level; (void)flags; return printbuf_memappend(pb, "\"custom\"", 8); }
-/* SS <h> <uid> <custom 0|1>   set_serializer */
-static void cmd_ss(int nt, char **t) { int h = hidx(t[1]); (void)nt; json_object_set_serializer(H[h], L(t[3]) ? ser_fn : NULL, (void *)(intptr_t)L(t[2]), L(t[2]) ? del_cb : NULL); ob_puts(&out, "= ok"); emit_dlog(); }
+static int ser_fail_fn(struct json_object *o, struct printbuf *pb, int level, int flags) { (void)o; (void)level; (void)flags; printbuf_memappend(pb, "[partial", 8); return -1; }
+/* SS <h> <uid> <custom 0|1|2>   set_serializer (2: a serializer that writes something and then reports failure) */
+static void cmd_ss(int nt, char **t) { int h = hidx(t[1]); (void)nt; json_object_set_serializer(H[h], L(t[3]) == 2 ? ser_fail_fn : L(t[3]) ? ser_fn : NULL, (void *)(intptr_t)L(t[2]), L(t[2]) ? del_cb : NULL); ob_puts(&out, "= ok"); emit_dlog(); }
 
 /* GETN <h> <n>: n times json_object_get; PUTN <h> <n>: n times json_object_put -> = <number of puts that returned 1> first=<index of the first such put | -1> del=.. (many-owner histories) */
 static void cmd_getn(int nt, char **t) { int h = hidx(t[1]); unsigned long n = UL(t[2]), i; (void)nt; for (i = 0; i < n; i++) { json_object_get(H[h]); if (!(i & 0xFFFFFF)) vf_progress++; } ob_puts(&out, "= ok"); }
@@ -524,11 +532,28 @@ static void cmd_oser(int nt, char **t)
 	if (first) ob_putc(&out, '-');
 	json_object_put(p);
 }
-/* OITDEL <hobj> <mode>  delete the CURRENT key while iterating with json_object_object_foreach; mode bit i = delete the i-th visited key; -> visit sequence */
+struct visdel_ctx { struct json_object *root; unsigned long mask; int i, first; };
+static int visdel_cb(json_object *jso, int flags, json_object *parent, const char *key, size_t *idx, void *arg)
+{
+	struct visdel_ctx *c = (struct visdel_ctx *)arg; (void)idx;
+	if (parent != c->root || (flags & JSON_C_VISIT_SECOND)) return JSON_C_VISIT_RETURN_CONTINUE;
+	if (!c->first) ob_putc(&out, ','); c->first = 0; ob_hex(&out, key, strlen(key)); ob_printf(&out, ":%ld", uid_of(jso));
+	if (c->i < 64 && (c->mask >> c->i) & 1) { c->i++; json_object_object_del(c->root, key); return JSON_C_VISIT_RETURN_SKIP; }
+	c->i++;
+	return JSON_C_VISIT_RETURN_CONTINUE;
+}
+/* OITDEL <hobj> <mode> [v]  delete the CURRENT key while iterating with json_object_object_foreach; mode bit i = delete the i-th visited key; -> visit sequence */
 static void cmd_oitdel(int nt, char **t)
 {
 	int ho = hidx(t[1]); unsigned long mask = (unsigned long)UL(t[2]); int i = 0, first = 1; (void)nt;
 	ob_puts(&out, "= ");
+	if (nt > 3) {   /* the same through the visitor: the callback deletes the member it is looking at and returns SKIP */
+		struct visdel_ctx c; c.root = H[ho]; c.mask = mask; c.i = 0; c.first = 1;
+		if (json_c_visit(H[ho], 0, visdel_cb, &c) != 0) ob_puts(&out, "!visit-failed");
+		if (c.first) ob_putc(&out, '-');
+		emit_dlog();
+		return;
+	}
 	{ json_object_object_foreach(H[ho], k, v) {
 		if (!first) ob_putc(&out, ','); first = 0; ob_hex(&out, k, strlen(k)); ob_printf(&out, ":%ld", uid_of(v));
 		if (i < 64 && (mask >> i) & 1) json_object_object_del(H[ho], k);
@@ -638,9 +663,25 @@ static void cmd_patch(int nt, char **t)
 /* VISIT <h> <default code> <code for call 0> <code for call 1> ...
  *   -> = <ret> <ncalls> <ptr>,<flags>,<parent ptr>,<k<hex>|i<idx>|->,<returned code>;...  */
 struct visit_sched { int n; char **codes; long deflt; int calls; };
+/* a callback may itself traverse another tree: code tokens N<code> / M<code> run a nested json_c_visit (ending in an error / normally) before returning <code> */
+static int nested_fn(json_object *jso, int flags, json_object *parent, const char *key, size_t *idx, void *arg)
+{
+	int *st = (int *)arg; (void)jso; (void)flags; (void)parent; (void)key; (void)idx;
+	st[1]++;
+	return (st[0] && st[1] == 2) ? JSON_C_VISIT_RETURN_ERROR : JSON_C_VISIT_RETURN_CONTINUE;
+}
+static void nested_visit(int fail)
+{
+	static struct json_object *tree; int st[2];
+	if (!tree) { tree = json_object_new_array(); json_object_array_add(tree, json_object_new_int(1)); json_object_array_add(tree, json_object_new_object()); }
+	st[0] = fail; st[1] = 0;
+	(void)json_c_visit(tree, 0, nested_fn, st);
+}
 static int visit_fn(json_object *jso, int flags, json_object *parent, const char *key, size_t *idx, void *arg)
 {
-	struct visit_sched *vs = (struct visit_sched *)arg; long code = vs->calls < vs->n ? L(vs->codes[vs->calls]) : vs->deflt;
+	struct visit_sched *vs = (struct visit_sched *)arg; const char *ct = vs->calls < vs->n ? vs->codes[vs->calls] : NULL; long code;
+	if (ct && (ct[0] == 'N' || ct[0] == 'M')) { nested_visit(ct[0] == 'N'); ct++; }
+	code = ct ? L(ct) : vs->deflt;
 	if (vs->calls) ob_putc(&out, ';');
 	ob_printf(&out, "%lx,%d,%lx,", (unsigned long)(uintptr_t)jso, flags, (unsigned long)(uintptr_t)parent);
 	if (key) { ob_putc(&out, 'k'); ob_hex(&out, key, strlen(key)); } else if (idx) ob_printf(&out, "i%zu", *idx); else ob_putc(&out, '-');
@@ -818,17 +859,18 @@ static void cmd_serfmt(int nt, char **t) { char *f = keyarg(t[2]); (void)nt; ser
 static void cmd_lpc(int nt, char **t)
 {
 	size_t n, off = 0; unsigned char *b; struct json_tokener *tok; struct json_object *o = NULL; int flags = (int)L(t[1]), depth = (int)L(t[2]); size_t chunk = (size_t)L(t[3]);
-	int same = 1, fmt = 1, sd = 1; long live = 0, foreign = 0, created = 0, freed = 0; (void)nt;
+	int same = 1, fmt = 1, sd = 1; long live = 0, foreign = 0, created = 0, freed = 0; int last_strlen = 0; (void)nt;
 	b = unhex(t[4], &n);
 	tok = depth > 0 ? json_tokener_new_ex(depth) : json_tokener_new();
 	json_tokener_set_flags(tok, flags);
+	if (L(t[3]) < 0) { chunk = (size_t)(-L(t[3])); last_strlen = 1; }   /* negative chunk: the LAST piece is handed over NUL-terminated with len = -1 */
 	if (chunk < 1) chunk = 1;
 	while (off < n + 1) {
 		size_t len = chunk; char *buf; struct locobs x, y;
 		if (len > n + 1 - off) len = n + 1 - off;
 		buf = exact_copy(b + off, len);   /* b has n bytes + a NUL */
 		loc_observe(&x);
-		o = json_tokener_parse_ex(tok, buf, (int)len);
+		o = json_tokener_parse_ex(tok, buf, (last_strlen && off + len == n + 1) ? -1 : (int)len);
 		loc_observe(&y);
 		free(buf);
 		same &= x.h == y.h; fmt &= !strcmp(x.fmt, y.fmt); sd &= x.sd == y.sd;
@@ -919,6 +961,23 @@ static void ptrs_rec(struct json_object *o)
 	else if (json_object_is_type(o, json_type_object)) { json_object_object_foreach(o, k, v) { (void)k; ptrs_rec(v); } }
 }
 static void cmd_ptrs(int nt, char **t) { (void)nt; ob_puts(&out, "="); ptrs_rec(H[hidx(t[1])]); }
+/* SCRAMBLE <h>: change every scalar of the tree in place through the setters (a tree that shares a node with another tree gives itself away) -> = <n changed> */
+static long scramble_rec(struct json_object *o)
+{
+	long n = 0;
+	if (!o) return 0;
+	switch (json_object_get_type(o)) {
+	case json_type_array: { size_t i, k = json_object_array_length(o); for (i = 0; i < k; i++) n += scramble_rec(json_object_array_get_idx(o, i)); break; }
+	case json_type_object: { json_object_object_foreach(o, key, v) { (void)key; n += scramble_rec(v); } break; }
+	case json_type_int: json_object_int_inc(o, 12345); n++; break;
+	case json_type_double: json_object_set_double(o, json_object_get_double(o) == 0.5 ? 0.25 : 0.5); n++; break;
+	case json_type_boolean: json_object_set_boolean(o, !json_object_get_boolean(o)); n++; break;
+	case json_type_string: json_object_set_string(o, "scrambled-by-the-driver----------------------------"); n++; break;
+	default: break;
+	}
+	return n;
+}
+static void cmd_scramble(int nt, char **t) { (void)nt; ob_printf(&out, "= %ld", scramble_rec(H[hidx(t[1])])); }
 /* NAV <hroot> <hdst> <step>...   step: k<hex> or i<idx>; borrowed pointer */
 static void cmd_nav(int nt, char **t)
 {
@@ -961,6 +1020,7 @@ static void dispatch(int nt, char **t)
 	else if (!strcmp(c, "SS")) cmd_ss(nt, t);
 	else if (!strcmp(c, "GET")) cmd_get(nt, t);
 	else if (!strcmp(c, "GETN")) cmd_getn(nt, t);
+	else if (!strcmp(c, "KSCR")) { vf_interned_scramble((int)L(t[1])); ob_puts(&out, "= ok"); }
 	else if (!strcmp(c, "PUTN")) cmd_putn(nt, t);
 	else if (!strcmp(c, "ALIAS")) cmd_alias(nt, t);
 	else if (!strcmp(c, "OADD")) cmd_oadd(nt, t);
@@ -1007,6 +1067,7 @@ static void dispatch(int nt, char **t)
 	else if (!strcmp(c, "DCOPY")) cmd_dcopy(nt, t);
 	else if (!strcmp(c, "PTRS")) cmd_ptrs(nt, t);
 	else if (!strcmp(c, "NAV")) cmd_nav(nt, t);
+	else if (!strcmp(c, "SCRAMBLE")) cmd_scramble(nt, t);
 	else if (!strcmp(c, "PB")) cmd_pb(nt, t);
 	else if (!strcmp(c, "NUM")) cmd_num(nt, t);
 	else if (!strcmp(c, "SET")) cmd_set(nt, t);
@@ -1031,6 +1092,7 @@ int main(int argc, char **argv)
 		if (!strcmp(tokv[0], "CASE")) {
 			int i;
 			for (i = 0; i < NT; i++) if (T[i]) { json_tokener_free(T[i]); T[i] = NULL; }
+			vf_interned_scramble(0);
 			release_all();
 			dlog_n = 0;
 			vf_disarm();
